@@ -8,7 +8,7 @@ from ..absint import Client, Ctx, Interp
 from ..model import AnalysisError, Cls, Func, Program, walk_own
 from ..report import Report
 from ..resolve import Scope, ann_type, dotted
-from ..util import calls_in, returns_of, src
+from ..util import assigned_value, calls_in, returns_of, src
 
 LISTS_MOD = "windpyutils.structures.lists"
 SAT = 3  # saturation of the (nodes - size) difference
@@ -89,6 +89,8 @@ def run(prog: Program, rep: Report):
     r1_size(prog, rep, lf)
     r2_identity(prog, rep, lf)
     r3_guards(prog, rep, lf)
+    from . import c08_shape
+    c08_shape.run(prog, rep, lf)
 
 
 # ---------------------------------------------------------------------------------------------- R1
@@ -122,8 +124,7 @@ class _Bypass(Client):
         fwd, bwd, ds = state
         lf = self.lf
         if kind == "store" and isinstance(node, ast.Attribute):
-            st = getattr(node, "_parent", None)
-            val = st.value if isinstance(st, ast.Assign) else None
+            val = assigned_value(node)
             vd = dotted(val) if val is not None else None
             td = dotted(node)
             if vd and td:
@@ -175,7 +176,7 @@ class _SizeLinks(Client):
             st = getattr(node, "_parent", None)
             while st is not None and not isinstance(st, ast.stmt):
                 st = getattr(st, "_parent", None)
-            val = st.value if isinstance(st, (ast.Assign, ast.AnnAssign)) else None
+            val = assigned_value(node)
             if isinstance(node, ast.Name) and isinstance(val, ast.Call):
                 tgt = ctx.scope.resolve_call(val)
                 if tgt is lf.node:
